@@ -776,8 +776,87 @@ def run(ctx):
     rule_panics(ctx)
     rule_casts(ctx)
     rule_handles(ctx)
+    rule_host_io(ctx)
     matcher.check_matcher(ctx, "classifier-matcher")
     ctx.assume("behaviour of std on concrete strings/files (chars(), from_utf8, File::open ..) is the specification")
     ctx.assume("lib/std/builtin/**.zy declares each role at the type of its classifier (validated at link time by "
                "BuiltinSignatureValidator, see classifier-matcher); runtime/stub.rs is outside the cargo workspace")
     return {}
+
+
+def rule_host_io(ctx):
+    rule = "host-io"
+    facts = ctx.facts
+    ctx.rule(rule, "two contracts of the file / reader roles that are visible in the shape of the host code: (a) `create_writer` is "
+                   "\"create or truncate\", `append_writer` appends: HostRuntime::open_writer opens with write, create, truncate(!append), "
+                   "append(append) — without the truncation a shorter text written over an existing file keeps the old tail; (b) the "
+                   "line readers (io_read_line) choose the end-of-input continuation from the NUMBER OF BYTES read_until returned (0 = "
+                   "end of input), not from the emptiness of the line after the terminator was stripped: an empty line is a line")
+    fn = next((k for k in facts.bodies() if k.endswith("HostRuntime::open_writer")), None)
+    if fn is None:
+        ctx.anchor_lost(rule, "HostRuntime::open_writer not found")
+    else:
+        h = facts.hir(fn)
+        env = A.ArmEnv(); env.strip = True; env.bind_params(h); env.absorb(h["body"])
+        opts = {}
+        for c in H.walk(h["body"]):
+            if H.kind(c) in ("Call", "MethodCall") and "OpenOptions" in (H.callee(c) or ""):
+                name = (H.callee(c) or "").split("::")[-1]
+                opts.setdefault(name, []).append([A.sexpr(a, env) for a in H.call_args(c)[1:]])
+        # truncation on the non-append path: `truncate(!append)`, or `truncate(true)` in the branch where append is false
+        par = {}
+        st = [h["body"]]
+        while st:
+            q = st.pop()
+            for c in H.children(q):
+                if isinstance(c, dict):
+                    par[id(c)] = q
+                    st.append(c)
+        trunc = False
+        for c in H.walk(h["body"]):
+            if not (H.kind(c) in ("Call", "MethodCall") and (H.callee(c) or "").endswith("OpenOptions::truncate")):
+                continue
+            arg = A.sexpr(H.call_args(c)[1], env)
+            if arg == "(Not $P2)":
+                trunc = True
+            elif arg == "True":
+                cur = c
+                while id(cur) in par:
+                    q = par[id(cur)]
+                    if H.kind(q) == "If":
+                        cond = A.sexpr(q.get("c") or {}, env)
+                        in_then = any(y is cur for y in H.walk(q.get("t") or {}))
+                        if (cond == "$P2" and not in_then) or (cond == "(Not $P2)" and in_then):
+                            trunc = True
+                    cur = q
+        writes = "write" in opts or "append" in opts
+        ok = trunc and writes and any(a == ["True"] for a in opts.get("create", []))
+        ctx.check(ok, rule, "open_writer:options", "HostRuntime::open_writer(path, append) opens with %s; expected write(true), create(true), "
+                  "truncate(!append), append(append): `create_writer` on an existing, longer file must not keep its old tail"
+                  % {k: v for k, v in sorted(opts.items()) if k not in ("new", "open")}, facts.bodies()[fn]["loc"],
+                  detail={"options": {k: v for k, v in sorted(opts.items()) if k not in ("new", "open")}})
+    n = 0
+    for fn, bd in sorted(facts.bodies().items()):
+        if not fn.startswith("zydeco_dynamics::impls::") or "{closure" in fn:
+            continue
+        h = facts.hir(fn)
+        if h is None or not any(H.kind(c) in ("Call", "MethodCall") and (H.callee(c) or "").endswith("::read_until") for c in H.walk(h["body"])):
+            continue
+        short = fn.split("::")[-1]
+        for m in H.walk(h["body"]):
+            if H.kind(m) != "Match" or m.get("src"):
+                continue
+            shapes = [A.pat_shape(a["pat"]) for a in m["arms"]]
+            if not any(s.startswith("Ok(") for s in shapes) or not any(H.kind(c) in ("Call", "MethodCall") and (H.callee(c) or "").endswith("::read_until")
+                                                                          for c in H.walk(m["scrut"])):
+                continue
+            n += 1
+            env = A.ArmEnv(); env.strip = True; env.bind_params(h)
+            eof = [a for a in m["arms"] if any(H.kind(c) in ("Call", "MethodCall") and (H.callee(c) or "").endswith("HostContinuation::force")
+                                              for c in H.walk(a["body"]))]
+            by_count = bool(eof) and all(re.match(r"^Ok\(\(lit:0,", A.pat_shape(a["pat"])) and not a.get("guard") for a in eof)
+            ctx.check(by_count, rule, "%s:eof-by-count" % short, "%s selects the end-of-input continuation on %s: end of input is `read_until` "
+                      "returning 0 bytes (`Ok((0, _))`); testing the stripped line for emptiness turns an empty line into end of input"
+                      % (short, [A.pat_shape(a["pat"]) + (" if .." if a.get("guard") else "") for a in eof]),
+                      [bd["loc"][0], m.get("ln")], detail={"eof arm": [A.pat_shape(a["pat"]) for a in eof]})
+    ctx.floor(rule, "line readers built on read_until", n, 1)
